@@ -2,6 +2,7 @@ CONSTANTS
   N = 1
   MaxTasks = 2
   G = 1
+  Stops = 1
   Dev = {"NoRespawn"}
 SPECIFICATION Spec
 CHECK_DEADLOCK FALSE
